@@ -232,3 +232,117 @@ Proof.
   cbn [map first_error].
   rewrite (follow_self_alias_crashes pinned_cfg [rule1 nA None (ERef false nA) None] nA eq_refl eq_refl fuel []). reflexivity.
 Qed.
+
+(* ---------------------------------------------------------------- the alias guard is conservative *)
+(* The same source facts with another answer to "is a rule found in its own alias chain rejected". *)
+Definition with_alias_guard (c : cfg) (g : option txclass) : cfg :=
+  {| c_params := c_params c; c_param_cls := c_param_cls c; c_split_cls := c_split_cls c; c_ws_guard := c_ws_guard c;
+     c_re_handler := c_re_handler c; c_str_handler := c_str_handler c; c_nomatch_handler := c_nomatch_handler c;
+     c_keyerror_handler := c_keyerror_handler c; c_ugroup_guard := c_ugroup_guard c; c_alias_guard := g;
+     c_mmm_getitem := c_mmm_getitem c; c_base_names := c_base_names c |}.
+
+Lemma lookup_with_guard c g rs n : lookup_rule (with_alias_guard c g) rs n = lookup_rule c rs n.
+Proof. reflexivity. Qed.
+
+(* a set of alias rules closed under "target of" : the unguarded resolution never leaves it *)
+Lemma follow_diverges c rs (S : list (list N)) : c_alias_guard c = None ->
+  (forall m, In m S -> exists t, lookup_rule c rs m = LAlias t /\ In t S) ->
+  forall fuel chain m, In m S -> follow c rs fuel chain m = Crash KRecursion.
+Proof.
+  intros Hg Hclosed. induction fuel as [|f IH]; intros chain m Hm; [reflexivity|].
+  cbn [follow]. destruct (Hclosed m Hm) as [t [Hl Ht]]. rewrite Hl, Hg. apply IH. exact Ht.
+Qed.
+
+(* chain = the alias rules being followed, most recent first; each one's target is the next more recent
+   one, the head's target is the name being looked up *)
+Fixpoint chain_ok (c : cfg) (rs : list rule) (chain : list (list N)) (cur : list N) : Prop :=
+  match chain with
+  | [] => True
+  | x :: rest => lookup_rule c rs x = LAlias cur /\ chain_ok c rs rest x
+  end.
+
+Lemma chain_segment_closed c rs : forall p cur n rest,
+  chain_ok c rs (p ++ n :: rest) cur ->
+  forall m, In m (p ++ [n]) -> exists t, lookup_rule c rs m = LAlias t /\ (In t (p ++ [n]) \/ t = cur).
+Proof.
+  induction p as [|x p IH]; intros cur n rest Hok m Hm.
+  - cbn in Hok, Hm. destruct Hok as [Hl _]. destruct Hm as [ <- | [] ]. exists cur. split; [exact Hl | right; reflexivity].
+  - cbn [app chain_ok] in Hok. destruct Hok as [Hl Hrest]. cbn [app In] in Hm. destruct Hm as [ <- | Hm ].
+    + exists cur. split; [exact Hl | right; reflexivity].
+    + destruct (IH x n rest Hrest m Hm) as [t [Ht [Hin | -> ]]].
+      * exists t. split; [exact Ht | left; right; exact Hin].
+      * exists x. split; [exact Ht | left; left; reflexivity].
+Qed.
+
+Lemma follow_guard_conservative c rs cl : c_alias_guard c = None ->
+  forall fuel chain n, chain_ok c rs chain n ->
+    follow c rs fuel chain n = Crash KRecursion
+    \/ follow c rs fuel chain n = follow (with_alias_guard c (Some cl)) rs fuel chain n.
+Proof.
+  intro Hg. induction fuel as [|f IH]; intros chain n Hok; [left; reflexivity|].
+  cbn [follow]. rewrite lookup_with_guard. destruct (lookup_rule c rs n) as [| |t] eqn:El; try (right; reflexivity).
+  rewrite Hg. cbn [c_alias_guard with_alias_guard].
+  destruct (mem_str n chain) eqn:Em.
+  - (* the guard fires: n is in its own chain, so the rules from n to the head of the chain form a cycle *)
+    left. apply mem_str_In in Em. apply in_split in Em as [p [rest ->]].
+    apply (follow_diverges c rs (p ++ [n]) Hg).
+    + intros m Hm. destruct (chain_segment_closed c rs p n n rest Hok m Hm) as [t' [Ht' [Hin | -> ]]].
+      * exists t'. split; assumption.
+      * exists n. split; [exact Ht' | apply in_or_app; right; left; reflexivity].
+    + (* the target t of n: n is in the segment, its target is in the segment by closedness *)
+      assert (Hn : In n (p ++ [n])) by (apply in_or_app; right; left; reflexivity).
+      destruct (chain_segment_closed c rs p n n rest Hok n Hn) as [t' [Ht' Hin]].
+      rewrite El in Ht'. injection Ht' as <-. destruct Hin as [Hin | -> ]; [exact Hin | apply in_or_app; right; left; reflexivity].
+  - apply IH. cbn [chain_ok]. split; [exact El | exact Hok].
+Qed.
+
+Lemma first_error_conservative (la lb : list outcome) :
+  Forall2 (fun a b => a = Crash KRecursion \/ a = b) la lb ->
+  first_error la = Crash KRecursion \/ first_error la = first_error lb.
+Proof.
+  induction 1 as [|a b la lb [ -> | -> ] _ IH]; [right; reflexivity | left; reflexivity |].
+  cbn [first_error]. destruct b; [exact IH | right; reflexivity ..].
+Qed.
+
+(* The repair changes the outcome of rule-reference resolution only where the unguarded code exhausts its
+   recursion budget. *)
+Theorem resolve_guard_conservative c cl fuel rs : c_alias_guard c = None ->
+  resolve_rule_refs c fuel rs = Crash KRecursion
+  \/ resolve_rule_refs c fuel rs = resolve_rule_refs (with_alias_guard c (Some cl)) fuel rs.
+Proof.
+  intro Hg. unfold resolve_rule_refs. apply first_error_conservative.
+  induction (all_refs rs) as [|n l IH]; [constructor|].
+  cbn [map]. constructor; [|exact IH].
+  apply (follow_guard_conservative c rs cl Hg fuel [] n). exact I.
+Qed.
+
+Lemma pinned_is_unguarded_src : forall c, with_alias_guard c (c_alias_guard c) = c.
+Proof. intros []. reflexivity. Qed.
+
+Theorem alias_repair_conservative c cl fuel rs : c_alias_guard c = Some cl ->
+  resolve_rule_refs (with_alias_guard c None) fuel rs = Crash KRecursion
+  \/ resolve_rule_refs (with_alias_guard c None) fuel rs = resolve_rule_refs c fuel rs.
+Proof.
+  intro H. pose proof (resolve_guard_conservative (with_alias_guard c None) cl fuel rs eq_refl) as P.
+  assert (E : with_alias_guard (with_alias_guard c None) (Some cl) = c).
+  { destruct c. cbn in H. subst. reflexivity. }
+  rewrite E in P. exact P.
+Qed.
+
+(* and where the guard does fire, the unguarded code fails for EVERY budget: a self-contained statement
+   for chains that start from a direct reference *)
+Theorem unguarded_never_recovers c rs cl : c_alias_guard c = None ->
+  forall fuel n, follow c rs fuel [] n <> Crash KRecursion ->
+  forall fuel', fuel' >= fuel -> follow c rs fuel' [] n = follow (with_alias_guard c (Some cl)) rs fuel' [] n.
+Proof.
+  intros Hg.
+  assert (mono : forall fuel chain n, follow c rs fuel chain n <> Crash KRecursion ->
+                 forall fuel', fuel' >= fuel -> forall chain', follow c rs fuel' chain' n = follow c rs fuel chain n).
+  { induction fuel as [|f IH]; intros chain n Hnc fuel' Hge chain'; [cbn in Hnc; congruence|].
+    destruct fuel' as [|f']; [lia|]. cbn [follow] in *.
+    destruct (lookup_rule c rs n) as [| |t]; try reflexivity.
+    rewrite Hg in *. apply IH; [exact Hnc | lia]. }
+  intros fuel n Hnc fuel' Hge.
+  destruct (follow_guard_conservative c rs cl Hg fuel' [] n I) as [Hc|He]; [|exact He].
+  exfalso. apply Hnc. rewrite <- (mono fuel [] n Hnc fuel' Hge []). exact Hc.
+Qed.
